@@ -12,6 +12,10 @@
 //                 C,<skipped>.<current>,<header> GetSkippedConfigData(skipped, current, header)
 //                                                (both re-key the definition of the skipped epoch to
 //                                                 the current epoch, in the database or in the map)
+//                 U,<skipped>.<current>,<header> UpdateSkippedEpochDefinitions (what HandleBlockImport calls for a
+//                                                block that skips an epoch); only generated with the skipped
+//                                                epoch's data in the database (otherwise the Go code dies in
+//                                                updateSkippedEpochDataRaw: RLock of one mutex, RUnlock of another)
 //                 R,0,i0                         restart: the EpochState is re-created from its
 //                                                database (NewEpochState -> restoreMapFromDisk);
 //                                                the queries are executed in order on one state
@@ -20,6 +24,7 @@
 // observed: a=<ok|err> per announcement, ME=<epoch>:<blk>.<id>+...;... (nextEpochData), MC=... ,
 //   then per query  [<natural epoch>@]ok.<id> | err.epoch | err.hash | err.other | ep.<epoch>
 //   E / C queries: <result>/ME=<nextEpochData after the call> resp. <result>/MC=<nextConfigData ...>
+//   U: <ok|err.*>/MC=<nextConfigData after the call>
 //   R: R/ME=<restored nextEpochData>/MC=<restored nextConfigData>
 //   (the whole case is `hang` when a lookup does not return: verifutil watchdog).
 //
@@ -146,6 +151,8 @@ func c26Gen(r *vu.RNG, n int, emit func(string)) {
 		for _, s := range []string{
 			// skipped epoch: data announced for epoch 1 used for epoch 2, in memory and in the database
 			"tree 3 0,1;1,2;0,1;3,2 e1,5;e3,6;c1,7 e1,9 E,1.2,i2;e,2,i2;e,1,i2;C,1.2,i2;c,2,i2;c,2,i4;C,1.3,i4",
+			// UpdateSkippedEpochDefinitions with the skipped epoch's configuration on the other fork only
+			"tree 2 0,1;1,3;0,1;3,3;4,5 c1,7;c3,8;c2,9 e2,4d U,2.3,i5;c,3,i5;c,2,i5;e,3,i5;U,2.4,i2;c,3,i2",
 			"tree 3 0,1;1,2;0,1;3,2 e1,5;e3,6;c3,8 - E,1.2,i2;e,2,i2;e,2,i4;e,1,i4;E,1.2,i2;C,1.2,i2;C,1.2,f2.9;R,0,i0;e,2,i2;e,1,i2",
 		} {
 			emit(s)
@@ -301,6 +308,33 @@ func c26Gen(r *vu.RNG, n int, emit func(string)) {
 					qs = append(qs, "R,0,i0", fmt.Sprintf("%c,%s,%s", lk, vu.X(ce), hs(imp, b, sl)), fmt.Sprintf("%c,%s,%s", lk, vu.X(se), hs(imp, b, sl)))
 				}
 			}
+		}
+		if !hangs && r.Chance(1, 4) {
+			// a block that skips an epoch is imported: UpdateSkippedEpochDefinitions, then the lookups
+			b := r.Intn(nb + 1)
+			imp := r.Chance(2, 3)
+			sl := t.slot[b] + uint64(1+r.Intn(6))
+			eb := t.epochImp(b)
+			if !imp {
+				eb = t.epochFresh(b, sl)
+			}
+			se := eb + 1
+			if r.Chance(1, 5) {
+				se = uint64(1 + r.Intn(3))
+			}
+			ce := se + 1 + uint64(r.Intn(2))
+			has := false
+			for _, d := range dbs {
+				if strings.HasPrefix(d, "e"+vu.X(se)+",") {
+					has = true
+				}
+			}
+			if !has {
+				dbs = append(dbs, fmt.Sprintf("e%s,%s", vu.X(se), vu.X(0x90+uint64(len(dbs)))))
+			}
+			qs = append(qs, fmt.Sprintf("U,%s.%s,%s", vu.X(se), vu.X(ce), hs(imp, b, sl)),
+				fmt.Sprintf("c,%s,%s", vu.X(ce), hs(imp, b, sl)), fmt.Sprintf("e,%s,%s", vu.X(ce), hs(imp, b, sl)),
+				fmt.Sprintf("c,%s,%s", vu.X(se), hs(imp, b, sl)), fmt.Sprintf("c,%s,i%s", vu.X(ce), vu.X(uint64(r.Intn(nb+1)))))
 		}
 		var bl, al []string
 		for k := 1; k <= nb; k++ {
@@ -511,6 +545,25 @@ func c26Run(in string) string {
 			}
 			es = es2
 			out = append(out, "R/ME="+dumpE()+"/MC="+dumpC())
+			continue
+		}
+		if p[0] == "U" {
+			sc := strings.Split(p[1], ".")
+			if len(sc) != 2 {
+				return "err:badquery"
+			}
+			se, ce := vu.UnX(sc[0]), vu.UnX(sc[1])
+			if se != 0 { // never enter the lock mix-up path: it is a fatal error, not a panic
+				if _, err := es.db.Get(epochDataKey(se)); err != nil {
+					out = append(out, "skip/MC="+dumpC()) // would be `fatal error: sync: RUnlock of unlocked RWMutex`
+					continue
+				}
+			}
+			if err := es.UpdateSkippedEpochDefinitions(se, ce, h); err != nil {
+				out = append(out, c26Err(err)+"/MC="+dumpC())
+			} else {
+				out = append(out, "ok/MC="+dumpC())
+			}
 			continue
 		}
 		if p[0] == "E" || p[0] == "C" {
